@@ -967,7 +967,7 @@ class ContentSecurityPolicyDirectiveListValueBase(ContentSecurityPolicyDirective
         if value_min_length is not None and ('value' not in parser or len(parser['value']) < value_min_length):
             raise InvalidValue(parser.unparsed, cls, value_name)
 
-        return cls(parser['value']), parser.parsed_length
+        return cls(parser.get('value', [])), parser.parsed_length
 
     def _compose(self, value_name):
         composer = self._compose_type()
